@@ -77,8 +77,10 @@ PROPS.update({
     "C06": stf_prop(["STF/Proofs/Block.vo"], ST_ALL,
                     ["the five Merkle roots are a function rf of the state (any function in the theorems; the real roots in the check)"],
                     "; C06: honest blocks must be accepted, each of 16 single-field mutations rejected (harness), apply_block replayed on the model"),
-    "C07": stf_prop(["STF/Proofs/Block.vo"], ST_HIST | ST_HDR | ST_NET,
-                    ["Merkle trees (novasmt) are not modelled in Coq: membership/absence proofs, history independence and the dense TIP-908 tree are checked on the real crate for every sealed state of the stream"]),
+    "C07": {"coq_targets": ["STF/Proofs/Block.vo", "Merkle/Smt.vo", "Cases/MerkleLib.vo"], "case_libs": ["Cases/Reflect.vo"],
+            "streams": [("stf", ST_HIST | ST_HDR | ST_NET), ("merkle", 3)],
+            "rule": STF_RULE + "; merkle stream: random small novasmt trees built by random insert/overwrite/delete histories with shared key prefixes; the model recomputes the root (sparse root function) and climbs every FullProof (present keys, an absent key, wrong values) with the real hash evaluations supplied as tables",
+            "assumptions": ["hash functions are abstract in the theorems; soundness assumes a collision-free hash (hypothesis, not axiom)", "the dense TIP-908 transaction tree and the stake tree's construction are checked on the real crate only"]},
     "C08": stf_prop(["STF/Proofs/Block.vo"], ST_ALL,
                     ["the content-addressed store returns the trees the header roots name (from_block takes them from the same maps)"],
                     "; C08: after every restart both lineages run three further blocks and their headers are compared"),
@@ -115,8 +117,8 @@ MANIFEST_TEXT = {
                      "The serialized size is an oracle field.", "Coq proof (induction over the batch) + differential replay + reflection"),
     "C06": _stf_text("Coq theorems: apply_block succeeds iff the transactions apply to the successor state, the result seals and the recomputed header equals the declared one; the returned state has that header; honest blocks are accepted; a differing header is rejected - for all states, blocks and root functions.",
                      "Header equality is record equality over 11 fields; roots are an arbitrary function of the state.", "Coq proof (unfolding/case analysis) + differential replay + mutation harness"),
-    "C07": _stf_text("Coq theorems for the state level (header fields, successor linkage, child header points at the parent for every block); the Merkle level (proofs of presence/absence verify, roots independent of operation order, dense tree positions) is explored on the real novasmt for every sealed state of the stream - partial: the trees are not modelled in Coq.",
-                     "Partial: Merkle trees are exercised, not proved.", "Coq proof (state level) + exploration of novasmt proofs on real states"),
+    "C07": _stf_text("Coq theorems. State level: the header records the state's scalars and the five roots, the successor state is one higher on the same network with the parent header stored at the parent's height, the child's header points at the parent's hash. Merkle level (novasmt sparse tree over an abstract hash, no size bound): the root is a function of the contents alone, every present or absent key has a proof that verifies, and for a collision-free hash a verifying proof determines the value and any differing entry changes the root. Tied to novasmt by recomputing roots and proofs of small real trees with tables of the real hash evaluations, and by checking membership/absence proofs, order-independence and the dense TIP-908 tree on every sealed state.",
+                     "Soundness assumes a collision-free hash (hypothesis); the dense transaction tree is explored, not proved.", "Coq proof (depth induction over an abstract hash; state-level unfolding) + differential recomputation of real novasmt roots/proofs"),
     "C08": _stf_text("Coq theorem: from_block(to_block s) = s as states (Leibniz equality, hence identical behaviour under every continuation) whenever no tips are pending, and the refutation for pending tips (known finding F16); the harness runs three further blocks on both lineages after every restart.",
                      "The store is modelled as returning the same maps.", "Coq proof (record equality) + lock-step continuation check"),
     "C13": _stf_text("Coq theorems: a stake is registered iff the five stated conditions hold; the stake set after a batch is exactly old plus registered; malformed stake transactions reject the batch; an accepted batch spends no output of a staked transaction (including same-batch stakes); at each block boundary exactly the stakes with end >= new epoch survive; sealing keeps the stakes.",
